@@ -68,14 +68,14 @@ macro_rules
       | exact keepsTop_pure _ | exact keepsTop_cur | exact keepsTop_get | exact keepsTop_write _ | exact keepsTop_getFrame _
       | exact keepsTop_liftStep _
       | (apply keepsTop_xerr; decide) | (apply keepsTop_throw; assumption)
-      | (apply keepsTop_modifyFrame; intro _; rfl) | (apply keepsTop_modify; intro _; rfl)
+      | (apply keepsTop_modify; intro _; rfl)
       | apply keepsTop_buffered | apply keepsTop_withFrame | apply keepsTop_withFrameView
       | apply keepsTop_bind | apply keepsTop_tryCatch
       | exact keeps_pure _ | exact keeps_get | exact keeps_modifyCur _
       | (apply keeps_xerr; decide) | (apply keeps_throw; assumption)
       | (apply KeepsTop.toKeeps; first
           | exact keepsTop_cur | exact keepsTop_write _ | exact keepsTop_getFrame _ | exact keepsTop_liftStep _
-          | (apply keepsTop_modifyFrame; intro _; rfl) | (apply keepsTop_modify; intro _; rfl)
+          | (apply keepsTop_modify; intro _; rfl)
           | apply keepsTop_withFrame | apply keepsTop_withFrameView)
       | apply keeps_buffered | apply keeps_bind | apply keeps_tryCatch
       | assumption
